@@ -106,15 +106,15 @@ theorem wrong_key_reduction (P : Prims) (sk : Bytes) (s : Stanza) (k : Bytes)
     · simp at h
 
 /-- under the idealisation "the honest body does not open under the key the wrong
-    identity derives", the wrong identity answers "incorrect identity" or a fatal
-    error — never a key -/
+    identity derives FROM THIS STANZA'S ephemeral share" (one key, not a family), the wrong identity
+    answers "incorrect identity" or a fatal error — never a key -/
 theorem wrong_key_incorrect (P : Prims) (sk : Bytes) (s : Stanza)
-    (hideal : ∀ pk shared, P.x25519 sk pk = some shared →
+    (hideal : ∀ pk shared, s.args = [B64.encRaw pk] → P.x25519 sk pk = some shared →
       P.wrapOpen (P.hkdf shared (pk ++ (P.x25519 sk P.basepoint).getD []) x25519Label 32) s.body = none) :
     ∀ k, unwrapX25519 P sk s ≠ .key k := by
   intro k h
-  obtain ⟨pk, shared, _, hs, ho⟩ := wrong_key_reduction P sk s k h
-  rw [hideal pk shared hs] at ho
+  obtain ⟨pk, shared, ha, hs, ho⟩ := wrong_key_reduction P sk s k h
+  rw [hideal pk shared ha hs] at ho
   simp at ho
 
 /-- **Reduction form for a wrong passphrase.** A passphrase identity answers a stanza
@@ -122,7 +122,8 @@ theorem wrong_key_incorrect (P : Prims) (sk : Bytes) (s : Stanza)
     THIS passphrase and the stanza's salt and work factor. -/
 theorem wrong_passphrase_reduction (P : Prims) (pw : Bytes) (m : Nat) (s : Stanza) (k : Bytes)
     (h : (unwrapScrypt P pw m s).1 = .key k) :
-    ∃ salt logN, s.args.length = 2 ∧ logN ≤ m ∧ salt.length = scryptSaltSize ∧
+    ∃ a w salt logN, s.args = [a, w] ∧ decodeString a = some salt ∧ parseWorkFactor w = some logN ∧
+      logN ≤ m ∧ salt.length = scryptSaltSize ∧
       P.wrapOpen (P.scrypt pw (scryptLabel ++ salt) logN) s.body = some k := by
   unfold unwrapScrypt at h
   split at h
@@ -149,18 +150,20 @@ theorem wrong_passphrase_reduction (P : Prims) (pw : Bytes) (m : Nat) (s : Stanz
                 · rename_i k' ho
                   simp only [UnwrapResult.key.injEq] at h
                   subst h
-                  exact ⟨salt, logN, by rw [hargs]; rfl, by omega, by simpa using hsl, ho⟩
+                  exact ⟨a, w, salt, logN, hargs, hd, hw, by omega, by simpa using hsl, ho⟩
                 · simp at h
     · simp at h
 
-/-- under the idealisation "the honest body does not open under any key this other
-    passphrase derives", the wrong passphrase never yields a key -/
+/-- under the idealisation "the honest body does not open under the key this other
+    passphrase derives with THIS STANZA'S salt and work factor" (one key, not a family), the wrong
+    passphrase never yields a key -/
 theorem wrong_passphrase_incorrect (P : Prims) (pw : Bytes) (m : Nat) (s : Stanza)
-    (hideal : ∀ salt logN, P.wrapOpen (P.scrypt pw (scryptLabel ++ salt) logN) s.body = none) :
+    (hideal : ∀ a w salt logN, s.args = [a, w] → decodeString a = some salt → parseWorkFactor w = some logN →
+      P.wrapOpen (P.scrypt pw (scryptLabel ++ salt) logN) s.body = none) :
     ∀ k, (unwrapScrypt P pw m s).1 ≠ .key k := by
   intro k h
-  obtain ⟨salt, logN, _, _, _, ho⟩ := wrong_passphrase_reduction P pw m s k h
-  rw [hideal salt logN] at ho
+  obtain ⟨a, w, salt, logN, ha, hd, hw, _, _, ho⟩ := wrong_passphrase_reduction P pw m s k h
+  rw [hideal a w salt logN ha hd hw] at ho
   simp at ho
 
 /-! ## Known finding K1 — the idealisation above is FALSE for one family of
@@ -229,6 +232,155 @@ example : ∀ s ∈ [({ type := [103], args := [], body := [] } : Stanza)], s.ty
 example : ∃ ids file k payload c, decryptInit Prims.toy ids file = (.ok (k, payload), c) :=
   let ⟨f, k, p, _, _, h⟩ := Props.C01.nonvacuous_roundtrip
   ⟨_, f, k, p, 1, h⟩
+
+/-! ## Non-vacuity: for every theorem above, concrete values meeting all of its hypotheses at once -/
+
+/-- witness values: a 16-byte file key; the two stanzas an ssh-rsa and an X25519 recipient wrap it in under the toy
+    primitives; a passphrase and an ssh-ed25519 identity (both answer "incorrect" on these stanzas) and the X25519
+    identity that opens the second stanza; a 16-byte payload nonce; a 9-byte plaintext; the honest file (chunks of 4) -/
+def wFk : Bytes := [1, 2, 3, 4, 5, 6, 7, 8, 9, 10, 11, 12, 13, 14, 15, 16]
+def wX : Stanza := { type := tX25519, args := [B64.encRaw (List.replicate 32 0)], body := wFk ++ List.replicate 12 0 }
+def wStanzas : List Stanza := [{ type := tSshRsa, args := [sshTag Prims.toy [1, 2, 3]], body := wFk }, wX]
+def wPre : List Identity := [Identity.scrypt [112] 22, Identity.sshEd [1] [2]]
+def wId : Identity := Identity.x25519 (List.replicate 32 2)
+def wNonce : Bytes := List.replicate 16 8
+def wPt : Bytes := [1, 2, 3, 4, 5, 6, 7, 8, 9]
+def wFile : Bytes := specFile Prims.toy 4 wFk wStanzas wNonce wPt
+
+/-- (helper for the witnesses below) -/
+theorem wStanzas_wf : ∀ s ∈ wStanzas, s.WF := by
+  intro s hs
+  simp only [wStanzas, wX, List.mem_cons, List.mem_nil_iff, or_false] at hs
+  rcases hs with rfl | rfl <;> exact ⟨by decide, by decide⟩
+
+/-- non-vacuity of `no_match_structure`: toy primitives; the honest two-stanza file and the two identities (passphrase,
+    ssh-ed25519) that answer "incorrect" -/
+theorem no_match_structure_nonvacuous :
+    wPre ≠ [] ∧
+    parse wFile = .ok ({ stanzas := wStanzas, mac := headerMAC Prims.toy wFk wStanzas },
+      wNonce ++ Stream.encrypt Prims.toy.aead 4 (streamKey Prims.toy wFk wNonce) wPt) ∧
+    (∀ i ∈ wPre, i.unwrap Prims.toy wStanzas = .incorrect) :=
+  ⟨by simp [wPre], specFile_parse Prims.toy Prims.toy_correct 4 wFk wNonce wPt wStanzas wStanzas_wf, by decide⟩
+
+example : decryptInit Prims.toy wPre wFile = (.error (.noMatch 2), 2) :=
+  let ⟨hne, hp, hall⟩ := no_match_structure_nonvacuous
+  no_match_structure Prims.toy wPre hne wFile _ _ hp hall
+
+/-- non-vacuity of `reader_requires_key`: the same file is accepted once the X25519 identity follows those two -/
+theorem reader_requires_key_nonvacuous :
+    decryptInit Prims.toy (wPre ++ wId :: []) wFile =
+      (.ok (streamKey Prims.toy wFk wNonce, Stream.encrypt Prims.toy.aead 4 (streamKey Prims.toy wFk wNonce) wPt), 3) :=
+  decryptInit_specFile Prims.toy Prims.toy_correct 4 wFk wNonce wPt wStanzas wStanzas_wf (by decide) (by decide)
+    wPre [] wId (by decide) (by decide)
+
+/-- an ssh-rsa stanza with an EMPTY body (the toy OAEP hands the body back as the key) -/
+def wR0 : Stanza := { type := tSshRsa, args := [sshTag Prims.toy [1, 2, 3]], body := [] }
+
+/-- the second disjunct of `reader_requires_key`'s conclusion is reachable too: toy primitives, the header `[wR0]` with
+    its MAC under the empty file key: the ssh-rsa identity is handed the empty key, `endsNonNil` holds, and Decrypt
+    returns a reader -/
+theorem reader_requires_key_nonvacuous_empty_key :
+    decryptInit Prims.toy [Identity.sshRsa [1, 2, 3] [9]] (specFile Prims.toy 4 [] [wR0] wNonce wPt) =
+      (.ok (streamKey Prims.toy [] wNonce, Stream.encrypt Prims.toy.aead 4 (streamKey Prims.toy [] wNonce) wPt), 1) ∧
+    (Identity.sshRsa [1, 2, 3] [9]).unwrap Prims.toy [wR0] = .key [] ∧
+    endsNonNil Prims.toy [wR0] [Identity.sshRsa [1, 2, 3] [9]] = true := by
+  refine ⟨?_, by decide, by decide⟩
+  unfold decryptInit
+  rw [specFile_parse Prims.toy Prims.toy_correct 4 [] wNonce wPt [wR0]
+    (by intro s hs; simp only [List.mem_singleton] at hs; subst hs; exact ⟨by decide, by decide⟩)]
+  rfl
+
+/-- non-vacuity of the three implications in `other_type_incorrect`: a header with a passphrase stanza and a grease
+    stanza has no stanza of type X25519, ssh-ed25519 or ssh-rsa -/
+theorem other_type_incorrect_nonvacuous :
+    let ss : List Stanza := [wrapScrypt Prims.toy [112] 18 (List.replicate 16 3) wFk, { type := [103], args := [], body := [] }]
+    (∀ s ∈ ss, s.type ≠ tX25519) ∧ (∀ s ∈ ss, s.type ≠ tSshEd) ∧ (∀ s ∈ ss, s.type ≠ tSshRsa) := by
+  decide
+
+/-- non-vacuity of `scrypt_no_stanza_incorrect`: the two-stanza header (ssh-rsa, X25519) has no passphrase stanza -/
+theorem scrypt_no_stanza_incorrect_nonvacuous : ∀ s ∈ wStanzas, s.type ≠ tScrypt := by decide
+
+/-- non-vacuity of `wrong_key_reduction`: toy primitives; the X25519 identity gets the file key out of the X25519 stanza -/
+theorem wrong_key_reduction_nonvacuous : unwrapX25519 Prims.toy (List.replicate 32 2) wX = .key wFk := by decide
+
+/-- non-vacuity of `wrong_passphrase_reduction`: toy primitives; a passphrase identity (maximum work factor 22) gets the
+    file key out of the stanza wrapped with work factor 18 -/
+theorem wrong_passphrase_reduction_nonvacuous :
+    (unwrapScrypt Prims.toy [112] 22 (wrapScrypt Prims.toy [112] 18 (List.replicate 16 3) wFk)).1 = .key wFk := by decide
+
+/-- non-vacuity of `finding_K1_same_kdf` and `finding_K1_nul_suffix_passphrase` (same hypothesis): the passphrase "pw" -/
+theorem finding_K1_same_kdf_nonvacuous : ([112, 119] : Bytes).length < 64 := by decide
+theorem finding_K1_nul_suffix_passphrase_nonvacuous : ([112, 119] : Bytes).length < 64 := by decide
+
+/-- non-vacuity of `finding_K2_same_kdf` and `finding_K2_digest_passphrase` (same hypothesis): 65 times "a" -/
+theorem finding_K2_same_kdf_nonvacuous : (List.replicate 65 (97 : UInt8)).length > 64 := by decide
+theorem finding_K2_digest_passphrase_nonvacuous : (List.replicate 65 (97 : UInt8)).length > 64 := by decide
+
+/-- non-vacuity of `ssh_other_tag_incorrect`: toy primitives (every ssh tag is "AAAAAA"); an ssh-rsa stanza tagged "BBBBBB" -/
+theorem ssh_other_tag_incorrect_nonvacuous :
+    let s : Stanza := { type := tSshRsa, args := [[66, 66, 66, 66, 66, 66]], body := wFk }
+    s.type = tSshRsa ∧ s.args = [[66, 66, 66, 66, 66, 66]] ∧ ([66, 66, 66, 66, 66, 66] : Bytes) ≠ sshTag Prims.toy [1, 2, 3] := by
+  decide
+
+/-- A toy suite in which keys MATTER (the plain toy AEAD ignores its key, so there every body opens under every key):
+    the AEAD tag is the toy tag followed by the first key byte; HKDF and scrypt hand on the first byte of their secret
+    input; X25519 multiplies the first bytes (base point 1), a commutative "Diffie–Hellman". -/
+def wKeyed : Prims :=
+  { Prims.toy with
+    aead :=
+      { T := 13
+        sealF := fun k n p => p ++ toyTag n ++ [k.headD 0]
+        openF := fun k n c =>
+          if 13 ≤ c.length ∧ c.drop (c.length - 13) = toyTag n ++ [k.headD 0] then some (c.take (c.length - 13)) else none }
+    hkdf := fun ikm _ _ n => List.replicate n (ikm.headD 0)
+    scrypt := fun pw _ _ => List.replicate 32 (pw.headD 0)
+    x25519 := fun a b => some (List.replicate 32 (a.headD 0 * b.headD 0))
+    basepoint := List.replicate 32 1 }
+
+/-- the stanza an X25519 recipient with secret key 3… (public key 3…) gets under `wKeyed`, ephemeral secret 5… -/
+def wXk : Stanza :=
+  { type := tX25519, args := [B64.encRaw (List.replicate 32 5)], body := wFk ++ List.replicate 12 0 ++ [15] }
+
+theorem two_mul_ne_15 (x : UInt8) : 2 * x ≠ 15 := by
+  intro h
+  have := congrArg UInt8.toNat h
+  simp [UInt8.toNat_mul] at this
+  omega
+
+/-- non-vacuity of `wrong_key_incorrect`: key-sensitive primitives `wKeyed`; `wXk` is the honest stanza for the key pair
+    (3…, 3…) and its own identity opens it; the other identity, secret key 2…, derives only wrapping keys with an even
+    first byte whatever the peer share, and the body (sealed under a key starting with 15) opens under none of them -/
+theorem wrong_key_incorrect_nonvacuous :
+    wrapX25519 wKeyed (List.replicate 32 3) (List.replicate 32 5) wFk = some wXk ∧
+    unwrapX25519 wKeyed (List.replicate 32 3) wXk = .key wFk ∧
+    (∀ pk shared, wXk.args = [B64.encRaw pk] → wKeyed.x25519 (List.replicate 32 2) pk = some shared →
+      wKeyed.wrapOpen (wKeyed.hkdf shared (pk ++ (wKeyed.x25519 (List.replicate 32 2) wKeyed.basepoint).getD []) x25519Label 32)
+        wXk.body = none) := by
+  refine ⟨by decide, by decide, ?_⟩
+  intro pk shared _ h
+  simp only [wKeyed, Option.some.injEq] at h
+  subst h
+  have : ∀ x : UInt8, wKeyed.wrapOpen (List.replicate 32 (2 * x)) wXk.body = none := by
+    intro x
+    simp [Prims.wrapOpen, wKeyed, wXk, wFk, zeroNonce, toyTag]
+    exact fun h => two_mul_ne_15 x h.symm
+  exact this (pk.headD 0)
+
+example : ∀ k, unwrapX25519 wKeyed (List.replicate 32 2) wXk ≠ .key k :=
+  wrong_key_incorrect wKeyed _ wXk wrong_key_incorrect_nonvacuous.2.2
+
+/-- non-vacuity of `wrong_passphrase_incorrect`: `wKeyed` again; the stanza is the honest one for passphrase [1] (which
+    opens it); every key the other passphrase [2] derives starts with 2, and the body does not open under it -/
+theorem wrong_passphrase_incorrect_nonvacuous :
+    (unwrapScrypt wKeyed [1] 22 (wrapScrypt wKeyed [1] 18 (List.replicate 16 3) wFk)).1 = .key wFk ∧
+    (∀ a w salt logN, (wrapScrypt wKeyed [1] 18 (List.replicate 16 3) wFk).args = [a, w] → decodeString a = some salt →
+      parseWorkFactor w = some logN → wKeyed.wrapOpen (wKeyed.scrypt [2] (scryptLabel ++ salt) logN)
+      (wrapScrypt wKeyed [1] 18 (List.replicate 16 3) wFk).body = none) :=
+  ⟨by decide, fun _ _ _ _ _ _ _ =>
+    (by decide : wKeyed.wrapOpen (List.replicate 32 2) (wrapScrypt wKeyed [1] 18 (List.replicate 16 3) wFk).body = none)⟩
+
+example : ∀ k, (unwrapScrypt wKeyed [2] 22 (wrapScrypt wKeyed [1] 18 (List.replicate 16 3) wFk)).1 ≠ .key k :=
+  wrong_passphrase_incorrect wKeyed [2] 22 _ wrong_passphrase_incorrect_nonvacuous.2
 
 end Props.C04
 end AgeModel
